@@ -280,10 +280,12 @@ class Tree:
                 open(os.path.join(od, ".done"), "w").close()
         return [os.path.join(od, s[:-2] + ".o") for s in LIB_SOURCES]
 
-    def variant_object(self, flavour, source, tag, config_overrides):
+    def variant_object(self, flavour, source, tag, config_overrides, extra_cflags=""):
         """One library source compiled for `flavour` against a copy of the
-        generated headers whose config.h has `config_overrides` applied."""
+        generated headers whose config.h has `config_overrides` applied
+        (and/or with extra compiler flags, e.g. another instruction set)."""
         cc, cflags, _ = FLAVOURS[flavour]
+        cflags = cflags + " " + extra_cflags
         gd = self.gendir()
         vd = os.path.join(self.dir, "gen-" + tag)
         od = os.path.join(self.dir, flavour, "obj-" + tag)
@@ -293,7 +295,7 @@ class Tree:
                 if not os.path.exists(os.path.join(vd, ".done")):
                     shutil.rmtree(vd, ignore_errors=True)
                     shutil.copytree(gd, vd)
-                    apply_config_overrides(os.path.join(vd, "config.h"), config_overrides)
+                    apply_config_overrides(os.path.join(vd, "config.h"), config_overrides or {})
                     open(os.path.join(vd, ".done"), "w").close()
                 compile_objects(od, vd, cc, cflags, sources=[source])
         return out
